@@ -44,6 +44,11 @@ pub struct ConnMon {
     pub close_sent: bool,
     pub local_close: Option<(u64, u64, Vec<u8>)>,
     pub initial_remote: Option<SocketAddr>,
+    /// current path instance (as delimited by changes of `remote_address()`)
+    pub inst_addr: Option<SocketAddr>,
+    pub inst_recvd: u64,
+    pub inst_sent: u64,
+    pub inst_count: BTreeMap<SocketAddr, u32>,
 }
 
 pub struct Mon {
@@ -95,6 +100,9 @@ impl Mon {
         if side == Side::Server {
             let credit = self.unattributed.remove(&(ei, remote)).unwrap_or(0);
             cm.paths.entry(remote).or_default().recvd += credit;
+            cm.inst_addr = Some(remote);
+            cm.inst_recvd = credit;
+            cm.inst_count.insert(remote, 1);
         }
         self.conns.insert((ei, ch), cm);
         self.cnt.inc("conn.created");
@@ -124,6 +132,9 @@ impl Mon {
                 if let Some(cm) = self.conns.get_mut(&(ei, ch)) {
                     if cm.is_server {
                         cm.paths.entry(d.src).or_default().recvd += d.data.len() as u64;
+                        if cm.inst_addr == Some(d.src) {
+                            cm.inst_recvd += d.data.len() as u64;
+                        }
                     }
                 }
             }
@@ -139,6 +150,13 @@ impl Mon {
         // C07: address validation events observable from the wire
         let lane = self.lane;
         let Some(cm) = self.conns.get_mut(&(ei, ch)) else { return };
+        if cm.is_server {
+            let credit = d.data.len() as u64;
+            let src = d.src;
+            if Self::refresh_instance(cm, conn, Some((src, credit))) {
+                self.cnt.inc("c07.path_instances");
+            }
+        }
         if cm.is_server && !d.forged {
             let types = wire::split_types(&d.data);
             if types.iter().any(|(t, _)| *t == PType::Handshake) {
@@ -171,6 +189,22 @@ impl Mon {
                 }
             }
         }
+    }
+
+    /// Track path instances as delimited by changes of `remote_address()`.
+    fn refresh_instance(cm: &mut ConnMon, conn: &Conn, trigger: Option<(SocketAddr, u64)>) -> bool {
+        let remote = conn.c.remote_address();
+        if cm.inst_addr == Some(remote) {
+            return false;
+        }
+        cm.inst_addr = Some(remote);
+        cm.inst_recvd = match trigger {
+            Some((src, n)) if src == remote => n,
+            _ => 0,
+        };
+        cm.inst_sent = 0;
+        *cm.inst_count.entry(remote).or_insert(0) += 1;
+        true
     }
 
     pub fn on_response(&mut self, _ei: usize, d: &Dgram, t: &Transmit, bytes: &[u8], _now: u64, _led: &mut Ledger) {
@@ -411,24 +445,40 @@ impl Mon {
         // ---------------- C07 ----------------
         if self.enable_c07 && conn.side == Side::Server {
             let cm = self.conns.entry((ei, ch)).or_default();
+            let on_current = cm.inst_addr == Some(t.destination);
+            let instances = cm.inst_count.get(&t.destination).copied().unwrap_or(0);
+            let (mut inst_sent, inst_recvd) = (cm.inst_sent, cm.inst_recvd);
             let p = cm.paths.entry(t.destination).or_default();
             let mut msgs = vec![];
             for s in &segs {
                 if !p.validated {
                     self.cnt.inc("c07.unvalidated_dgrams");
-                    if p.sent + 1 > 3 * p.recvd {
+                    if on_current && inst_sent + 1 > 3 * inst_recvd {
                         msgs.push(format!(
-                            "conn {ei}/{ch}: {} more bytes to unvalidated {} after {} sent / {} received (3x = {})",
+                            "conn {ei}/{ch}: {} more bytes to unvalidated {} after {} sent / {} received on this path (3x = {})",
+                            s.len(),
+                            t.destination,
+                            inst_sent,
+                            inst_recvd,
+                            3 * inst_recvd
+                        ));
+                    } else if p.sent + 1 > 3 * p.recvd {
+                        msgs.push(format!(
+                            "conn {ei}/{ch}: cumulative over {} path instances (repeated migration to an address whose validation failed): {} more bytes to unvalidated {} after {} sent / {} received in total",
+                            instances,
                             s.len(),
                             t.destination,
                             p.sent,
-                            p.recvd,
-                            3 * p.recvd
+                            p.recvd
                         ));
                     }
                 }
                 p.sent += s.len() as u64;
+                if on_current {
+                    inst_sent += s.len() as u64;
+                }
             }
+            cm.inst_sent = inst_sent;
             for m in msgs {
                 self.violate("C07", m);
             }
@@ -447,8 +497,13 @@ impl Mon {
 
     pub fn before_timeout(&mut self, _ei: usize, _ch: usize, _conn: &Conn, _now: u64, _due: bool) {}
 
-    pub fn after_timeout(&mut self, _ei: usize, _ch: usize, _conn: &Conn, _now: u64, _due: bool, _before: Option<std::time::Instant>, _led: &mut Ledger) {
+    pub fn after_timeout(&mut self, ei: usize, ch: usize, conn: &Conn, _now: u64, _due: bool, _before: Option<std::time::Instant>, _led: &mut Ledger) {
         self.cnt.inc("timer.handled");
+        if let Some(cm) = self.conns.get_mut(&(ei, ch)) {
+            if cm.is_server && Self::refresh_instance(cm, conn, None) {
+                self.cnt.inc("c07.path_instances");
+            }
+        }
     }
 
     pub fn end_of_step(&mut self, _now: u64, _eps: &[Ep], _led: &mut Ledger) {}
